@@ -107,3 +107,242 @@ func c04DeadlineOnce(api, how, dir string) string {
 	}
 	return ""
 }
+
+// c02ExpiredNestedCall (C02): a slow handler's OWN nested call is made with a context that has already expired
+// (the handler overran the budget it set itself) while another handler of the same link is stalled and an
+// alternating chain is parked behind a gate. Only that nested call fails — with its context's error, handed to the
+// handler, which answers normally; the stalled call, the chain and independent calls are untouched and the link stays up.
+func c02ExpiredNestedCall(rep *Report, api string) {
+	rep.Evaluations++
+	rep.Distinct++
+	desc := map[string]any{"suite": "C02-expired-nested-call", "api": api}
+	p, err := NewPair(jsonRaw(), PairOpts{API: api})
+	if err != nil {
+		rep.addViolation("property", "C02:expired-nested:setup", "link setup failed: "+err.Error(), desc)
+		return
+	}
+	defer p.Shutdown()
+	ra, _, _ := p.A.AnyRemote()
+	defer p.B.Svc.OpenGate(51)
+	stalled := make(chan callResult, 1)
+	go func() { v, err := ra.Gate(context.Background(), 51); stalled <- callResult{true, v, err} }()
+	waitFor(func() bool {
+		for _, inv := range p.B.Svc.Invocations() {
+			if inv.Method == "Gate" && inv.Args == "51" {
+				return true
+			}
+		}
+		return false
+	})
+	// B's handler invokes the closure under a context of its own that expires at once (0 ms): a nested call B->A
+	// made with a done context
+	ran := 0
+	r := withWatchdog(func() (any, error) {
+		return ra.TimedClosure(context.Background(), 0, func(ctx context.Context, i int, s string) (string, error) {
+			ran++
+			return "ran", nil
+		})
+	})
+	if !r.ok {
+		rep.addViolation("property", "C02:"+api+":expired-nested:hang", "a call whose handler made a nested call with an expired context did not return", desc)
+		return
+	}
+	if r.err != nil {
+		rep.addViolation("property", "C02:"+api+":expired-nested:call", fmt.Sprintf("a handler made a nested call (a closure invocation) with a context of its own that had already expired; the OUTER call — whose handler copes with that and answers — returned (%v, %v)", r.val, r.err), desc)
+	}
+	select {
+	case e := <-p.A.LinkErr:
+		rep.addViolation("property", "C02:"+api+":expired-nested:link", fmt.Sprintf("one handler's nested call with an expired context ended the link under a stalled handler: Link returned %q", e), desc)
+		return
+	case e := <-p.B.LinkErr:
+		rep.addViolation("property", "C02:"+api+":expired-nested:link", fmt.Sprintf("one handler's nested call with an expired context ended the link under a stalled handler: Link returned %q", e), desc)
+		return
+	case s := <-stalled:
+		rep.addViolation("property", "C02:"+api+":expired-nested:sibling", fmt.Sprintf("the stalled call returned (%v, %v) when another handler's nested call was made with an expired context", s.val, s.err), desc)
+		return
+	case <-time.After(20 * time.Millisecond):
+	}
+	if b := withWatchdog(func() (any, error) { return ra.Bounce(context.Background(), 4) }); !b.ok || b.err != nil {
+		rep.addViolation("property", "C02:"+api+":expired-nested:chain", fmt.Sprintf("an alternating chain after that: %+v", b), desc)
+	}
+	p.B.Svc.OpenGate(51)
+	select {
+	case s := <-stalled:
+		if s.err != nil || s.val.(int) != 51 {
+			rep.addViolation("property", "C02:"+api+":expired-nested:sibling", fmt.Sprintf("the stalled call returned (%v, %v) after release, want (51, nil)", s.val, s.err), desc)
+		}
+	case <-time.After(watchdog):
+		rep.addViolation("property", "C02:"+api+":expired-nested:sibling", "the stalled call never returned after release", desc)
+	}
+}
+
+// c03ClosureRunningAtLinkEnd (C03): the link ends (context cancelled / transport fails) while the peer's handler
+// is INSIDE the closure the in-flight call passed — the caller's function is executing on the caller's side and
+// does not return (it waits for something of its own). The in-flight call must still error out promptly: its
+// deferred release of the closure may not wait for the closure body.
+func c03ClosureRunningAtLinkEnd(rep *Report, prop, api, cause string) {
+	rep.Evaluations++
+	rep.Distinct++
+	desc := map[string]any{"suite": "closure-running-at-link-end", "api": api, "cause": cause}
+	p, err := NewPair(jsonRaw(), PairOpts{API: api})
+	if err != nil {
+		rep.addViolation("property", prop+":closure-running:setup", "link setup failed: "+err.Error(), desc)
+		return
+	}
+	defer p.Shutdown()
+	ra, _, _ := p.A.AnyRemote()
+	entered := make(chan struct{}, 1)
+	release := make(chan struct{})
+	defer close(release)
+	res := make(chan callResult, 1)
+	go func() {
+		v, err := ra.WithClosure(context.Background(), 1, false, func(ctx context.Context, i int, s string) (string, error) {
+			select {
+			case entered <- struct{}{}:
+			default:
+			}
+			<-release // busy with something of its own; it only ever got the link's context
+			return "late", nil
+		})
+		res <- callResult{true, v, err}
+	}()
+	select {
+	case <-entered:
+	case <-time.After(watchdog):
+		rep.addViolation("property", prop+":"+api+":closure-running:never-entered", "the callee never invoked the closure", desc)
+		return
+	}
+	if cause == "cancel" {
+		p.A.Cancel()
+	} else {
+		p.CloseTransport()
+	}
+	select {
+	case r := <-res:
+		if r.err == nil {
+			rep.addViolation("property", prop+":"+api+":closure-running:nil-error", fmt.Sprintf("the link ended (%s) under a call in flight; the call returned (%v, nil)", cause, r.val), desc)
+		}
+	case <-time.After(watchdog):
+		rep.addViolation("property", prop+":"+api+":closure-running:hang", fmt.Sprintf("the link ended (%s) while the closure passed by a call in flight was executing on the caller's side: the call has not returned — it waits for its own closure body", cause), desc)
+	}
+}
+
+// c15NestedClosureTeardown (C15): a closure body that itself makes a closure-carrying call over the link (the
+// closure table is touched while a closure runs), several rounds on fresh links of the SAME registries, then the
+// links end: every call has returned, no registration and no goroutine in panrpc code is left behind.
+func c15NestedClosureTeardown(rep *Report, prop, api string) {
+	rep.Evaluations++
+	rep.Distinct++
+	desc := map[string]any{"suite": "nested-closure-then-teardown", "api": api}
+	before := len(panrpcGoroutines())
+	p, err := NewPair(jsonRaw(), PairOpts{API: api})
+	if err != nil {
+		rep.addViolation("property", prop+":nested-closure:setup", "link setup failed: "+err.Error(), desc)
+		return
+	}
+	ra, _, _ := p.A.AnyRemote()
+	res := make(chan callResult, 1)
+	go func() {
+		v, err := ra.WithClosure(context.Background(), 1, false, func(ctx context.Context, i int, s string) (string, error) {
+			in, err := ra.WithClosure(ctx, 1, false, func(ctx context.Context, i int, s string) (string, error) { return "inner", nil })
+			if err != nil {
+				return "", err
+			}
+			return "outer:" + in[0], nil
+		})
+		res <- callResult{true, v, err}
+	}()
+	returned := false
+	select {
+	case r := <-res:
+		returned = true
+		if r.err != nil || r.val.([]string)[0] != "outer:inner" {
+			rep.addViolation("property", prop+":"+api+":nested-closure:result", fmt.Sprintf("a closure body that passes a closure on: got %+v", r), desc)
+		}
+	case <-time.After(watchdog / 2):
+	}
+	p.Shutdown()
+	if !returned {
+		select {
+		case <-res:
+		case <-time.After(watchdog / 2):
+			rep.addViolation("property", prop+":"+api+":nested-closure:call-never-returned", "a call whose closure body makes a closure-carrying call has not returned although its link has ended", desc)
+		}
+	}
+	dl := time.Now().Add(2 * time.Second)
+	for len(panrpcGoroutines()) > before && time.Now().Before(dl) {
+		time.Sleep(2 * time.Millisecond)
+	}
+	if left := panrpcGoroutines(); len(left) > before {
+		rep.addViolation("property", prop+":"+api+":nested-closure:goroutines", fmt.Sprintf("after the link ended %d goroutine(s) are still inside panrpc code: %s", len(left)-before, topFrames(left[len(left)-1])), desc)
+	}
+	cnt := withWatchdog(func() (any, error) { return p.A.Reg.VerifClosureCount() + p.B.Reg.VerifClosureCount(), nil })
+	if !cnt.ok {
+		rep.addViolation("property", prop+":"+api+":nested-closure:lock-held", "after the link ended the closure table's lock is still held by somebody: the registrations cannot even be counted", desc)
+	} else if n := cnt.val.(int); n != 0 {
+		rep.addViolation("property", prop+":"+api+":nested-closure:registrations", fmt.Sprintf("%d closure registration(s) left after the link ended", n), desc)
+	}
+}
+
+// c16ManyInFlight (C16): far more calls in flight on one healthy link than any plausible built-in bound (pending
+// tables, pools and windows are sized in the hundreds or low thousands): Link keeps blocking, every call completes.
+func c16ManyInFlight(rep *Report, prop, api string, n int) {
+	rep.Evaluations++
+	rep.Distinct++
+	desc := map[string]any{"suite": "many-calls-in-flight", "api": api, "calls": n}
+	p, err := NewPair(cborRaw(), PairOpts{API: api})
+	if err != nil {
+		rep.addViolation("property", prop+":many-in-flight:setup", "link setup failed: "+err.Error(), desc)
+		return
+	}
+	defer p.Shutdown()
+	ra, _, _ := p.A.AnyRemote()
+	defer p.B.Svc.OpenGate(61)
+	res := make(chan callResult, n)
+	for i := 0; i < n; i++ {
+		go func() { v, err := ra.Gate(context.Background(), 61); res <- callResult{true, v, err} }()
+	}
+	arrived := func() int {
+		k := 0
+		for _, inv := range p.B.Svc.Invocations() {
+			if inv.Method == "Gate" && inv.Args == "61" {
+				k++
+			}
+		}
+		return k
+	}
+	dl := time.Now().Add(watchdog)
+	for arrived() < n && time.Now().Before(dl) {
+		select {
+		case e := <-p.A.LinkErr:
+			rep.addViolation("property", prop+":"+api+":many-in-flight:link-returned", fmt.Sprintf("with %d of %d calls in flight on a healthy link (live context, working transport) Link returned %q", arrived(), n, e), desc)
+			return
+		case e := <-p.B.LinkErr:
+			rep.addViolation("property", prop+":"+api+":many-in-flight:link-returned", fmt.Sprintf("with %d of %d calls in flight on a healthy link the peer's Link returned %q", arrived(), n, e), desc)
+			return
+		case <-time.After(2 * time.Millisecond):
+		}
+	}
+	if k := arrived(); k < n {
+		rep.addViolation("property", prop+":"+api+":many-in-flight:stuck", fmt.Sprintf("only %d of %d concurrent calls reached their handlers", k, n), desc)
+		return
+	}
+	p.B.Svc.OpenGate(61)
+	for i := 0; i < n; i++ {
+		select {
+		case r := <-res:
+			if r.err != nil || r.val.(int) != 61 {
+				rep.addViolation("property", prop+":"+api+":many-in-flight:result", fmt.Sprintf("one of %d concurrent calls returned (%v, %v)", n, r.val, r.err), desc)
+				return
+			}
+		case <-time.After(watchdog):
+			rep.addViolation("property", prop+":"+api+":many-in-flight:hang", fmt.Sprintf("%d of %d concurrent calls returned after release", i, n), desc)
+			return
+		}
+	}
+	select {
+	case e := <-p.A.LinkErr:
+		rep.addViolation("property", prop+":"+api+":many-in-flight:link-returned", fmt.Sprintf("Link returned %q on a healthy link after %d concurrent calls", e, n), desc)
+	default:
+	}
+}
